@@ -1,12 +1,13 @@
 """Which units (and extra engines) serve which property, plus MANIFEST metadata."""
-UNITS = ['u_list', 'u_jobs', 'u_tok', 'u_plan']
+UNITS = ['u_list', 'u_jobs', 'u_tok', 'u_plan', 'u_exp1']
 
 PROPERTY_UNITS = {
     'C03': ['u_list'],
     'C06': ['u_jobs'],
-    'C05': ['u_list', 'u_jobs', 'u_tok', 'u_plan'],
-    'C01': ['u_plan'],
-    'C13': ['u_plan'],
+    'C05': ['u_list', 'u_jobs', 'u_tok', 'u_plan', 'u_exp1'],
+    'C01': ['u_plan', 'u_exp1'],
+    'C13': ['u_plan', 'u_exp1'],
+    'C12': ['u_exp1'],
 }
 EXTRA_ENGINES = {}
 HOOK_COMMITS = []
@@ -50,6 +51,15 @@ META['C13'] = {
     'note': 'that expansion passes keep/set the tag is proved in U-EXP; the unquoted half ($X unquoted keeps an empty tag and is re-read) is architectural.',
 }
 
+META['C12'] = {
+    'text': 'Verus proves for expand_brace, expand_glob and expand_brace_range that the final token list is exactly the specified splice: every rewritten token is unquoted and '
+            'matches the gate, all other tokens stay where they are in order, each produced word list replaces its token in place, a word with a blank gets the double-quote tag; '
+            'the numeric range is the inclusive arithmetic sequence toward the end bound (no overflow, terminates); a glob pattern never vanishes, hidden entries are filtered by '
+            'the stated rule; the recursive brace parser is memory-safe and terminates on every string.',
+    'note': 'regexes (gates, range captures) and glob::glob are uninterpreted shims; str::parse::<i32> by its std contract; tokens shorter than 2^31 chars; the functional brace '
+            'grammar (cartesian product) and text around {m..n} are not claimed (see DESIGN); expand_home in U-EXP2.',
+}
+
 _PENDING = 'not yet brought under contract in this revision of /verif (work in progress; see DESIGN.md)'
 NOT_APPLICABLE = {
     'C14': 'parse tree comes from a macro-generated pest parser and the external, lifetime-parameterised pest::iterators::Pair type; no contract within reach',
@@ -57,5 +67,5 @@ NOT_APPLICABLE = {
     'C18': 'semantics live in SQLite\'s SQL parser (bundled C library); SQL is built with format!, outside Verus',
     'C20': 'needs the lineread completer protocol, a populated filesystem and the escaped-word round trip (a recorded C01 violation)',
 }
-for _p in ['C02', 'C04', 'C07', 'C08', 'C09', 'C10', 'C11', 'C12', 'C13', 'C15', 'C17', 'C19']:
+for _p in ['C02', 'C04', 'C07', 'C08', 'C09', 'C10', 'C11', 'C15', 'C17', 'C19']:
     NOT_APPLICABLE.setdefault(_p, _PENDING)
